@@ -23,7 +23,24 @@ let res_text f = function
 let unf s = if String.length s > 0 && s.[0] = '~' then String.sub s 1 (String.length s - 1) else s
 
 (* ------------------------------------------------------------------ gcd *)
+let fuel_lehmer = nat_of 200000
+let both_large a b = bits a > 128 && bits b > 128
+let panic_text = function Panic _ -> "panic-in-model" | Err _ -> "err" | OutOfFuel -> "outoffuel" | Ok _ -> ""
+(* value-level as-is model of gcd_large (Lehmer loop) for two operands of more than two words *)
+let lehmer_gcd_text a b =
+  match lehmer_gcd_asis fuel_lehmer (zi 64) (Zar.abs a) (Zar.abs b) with
+  | Ok g -> "ok " ^ hx g
+  | r -> panic_text r
+(* gcd_ext_large + the sign handling of impl_ibig_gcd_ext *)
+let lehmer_gcd_ext_text a b =
+  match lehmer_gcd_ext_asis fuel_lehmer (zi 64) (Zar.abs a) (Zar.abs b) with
+  | Ok ((g, s), t) ->
+      let sg v x = if Zar.sign v < 0 then Zar.neg x else x in
+      "ok " ^ hx g ^ " " ^ hx (sg a s) ^ " " ^ hx (sg b t)
+  | r -> panic_text r
+
 let judge_gcd ?(asis = "") a b got =
+  let asis = if asis = "" && both_large a b then lehmer_gcd_text a b else asis in
   let fid = if asis = "" then "" else " " ^ same asis got in
   match gcd_spec a b with
   | Panic _ -> expect ~nt:false ~extra:fid ("panic " ^ gcd00) got
@@ -33,6 +50,7 @@ let judge_gcd ?(asis = "") a b got =
   | _ -> fail "spec"
 
 let judge_gcd_ext ?(asis = "") a b got =
+  let asis = if asis = "" && both_large a b then lehmer_gcd_ext_text a b else asis in
   let fid = if asis = "" then "" else " " ^ same asis got in
   match gcd_spec a b with
   | Panic _ -> expect ~nt:false ~extra:fid ("panic " ^ gcd00) got
@@ -152,6 +170,16 @@ let judge_log2_value ?(cls = "") ?(nostd_model = false) (num : Zar.t) (den : Zar
         | None -> "ok " ^ neg_inf ^ " " ^ neg_inf
         | Some (l, u) -> (match dyadic_f32 l, dyadic_f32 u with Some a, Some b -> "ok " ^ a ^ " " ^ b | _ -> "?") in
       " path=nostd-table " ^ same text got
+    else if ns && nostd_model then
+      (* wider than u16: the shifted table estimate with next_down / next_up, both as dyadic values and
+         through the bit-pattern functions of the source *)
+      let n = Zar.abs num in
+      let text = match nostd_log2_wide n with
+        | None -> "ok " ^ neg_inf ^ " " ^ neg_inf
+        | Some (l, u) -> (match dyadic_f32 l, dyadic_f32 u with Some a, Some b -> "ok " ^ a ^ " " ^ b | _ -> "?") in
+      let pow2 = Zar.equal n (Zar.shift_left Zar.one (Zar.numbits n - 1)) in
+      let text2 = if pow2 then text else (let (a, b) = nostd_wide_bits n in Printf.sprintf "ok %s %s" (hx a) (hx b)) in
+      " path=nostd-wide " ^ (if text = text2 then same text got else "asis=diff")
     else if ns then " path=nostd" else " path=std" in
   if Zar.sign num = 0 then expect ~nt:false ~extra:fid ("ok " ^ neg_inf ^ " " ^ neg_inf) got
   else judge_log2 ~cls ~fid (Zar.abs num) den got
@@ -201,6 +229,8 @@ let judge_ksqrt n a got =
     ^ (if Zar.sign r < 0 then "C" else "c") ^ (if Zar.geq u s1 then "U" else "u") in
   expect ~extra:(Printf.sprintf "cls=ksqrt-%s-n%d path=ksqrt-%s " odd (min 9 ni) path ^ same asis got) want got
 
+let fuel_root = nat_of 64
+let add_extra e (v : verdict) = if v.v = "pass" then { v with extra = v.extra ^ e } else v
 let ty_bits t = match t with "u8" | "i8" -> 8 | "u16" | "i16" -> 16 | "u32" | "i32" -> 32 | "u128" | "i128" -> 128 | _ -> 64
 
 let judge op args got =
@@ -216,7 +246,9 @@ let judge op args got =
         let asis = res_text (fun ((g, cs), ct) -> hx g ^ " " ^ hx cs ^ " " ^ hx ct) (prim_gcd_ext_asis fuel_small (a 1) (a 2)) in
         judge_gcd_ext ~asis (a 1) (a 2) got
     | "usqrt" -> expect ~extra:(Printf.sprintf "cls=sqrt-w%d" (min 9 ((bits (a 0) + 63) / 64))) ("ok " ^ hx (Zar.sqrt (a 0))) got
-    | "psqrt" -> expect ("ok " ^ hx (Zar.sqrt (a 1))) got
+    | "psqrt" ->
+        let fid = " " ^ same (res_text (fun (r, _) -> hx r) (prim_sqrt_rem_asis fuel_root (zi (ty_bits (s 0))) (a 1))) got in
+        expect ~extra:(Printf.sprintf "cls=psqrt-%s" (s 0) ^ fid) ("ok " ^ hx (Zar.sqrt (a 1))) got
     | "usqrt_rem" -> let (r, e) = sqrt_rem_spec (a 0) in
         (* multi-word values: the pre-/post-shift model around the kernel contract *)
         let fid = if bits (a 0) > 128 then (
@@ -224,15 +256,21 @@ let judge op args got =
             let full = res_text (fun (r, e) -> hx r ^ " " ^ hx e) (sqrt_rem_large_asis w64 (a 0)) in
             " " ^ (if split_ws full = got then same ("ok " ^ hx r' ^ " " ^ hx e') got else "asis=diff")) else "" in
         expect ~extra:(Printf.sprintf "cls=sqrtrem-w%d" (min 9 ((bits (a 0) + 63) / 64)) ^ fid) ("ok " ^ hx r ^ " " ^ hx e) got
-    | "psqrt_rem" -> let (r, e) = sqrt_rem_spec (a 1) in expect ("ok " ^ hx r ^ " " ^ hx e) got
+    | "psqrt_rem" -> let (r, e) = sqrt_rem_spec (a 1) in
+        let fid = " " ^ same (res_text (fun (r, e) -> hx r ^ " " ^ hx e) (prim_sqrt_rem_asis fuel_root (zi (ty_bits (s 0))) (a 1))) got in
+        expect ~extra:(Printf.sprintf "cls=psqrtrem-%s" (s 0) ^ fid) ("ok " ^ hx r ^ " " ^ hx e) got
     | "isqrt" -> if Zar.sign (a 0) < 0 then expect ~nt:false "panic RootNegative" got else expect ("ok " ^ hx (Zar.sqrt (a 0))) got
     | "ucbrt" -> judge_root ~signed:false (zi 3) (a 0) got
-    | "pcbrt" -> judge_root ~model:false ~signed:false (zi 3) (a 1) got
+    | "pcbrt" ->
+        let fid = " " ^ same (res_text (fun (r, _) -> hx r) (prim_cbrt_rem_asis fuel_root (zi (ty_bits (s 0))) (a 1))) got in
+        add_extra fid (judge_root ~model:false ~signed:false (zi 3) (a 1) got)
     | "icbrt" -> judge_root ~signed:true (zi 3) (a 0) got
     | "unth" -> judge_root ~signed:false (n 1) (a 0) got
     | "inth" -> judge_root ~signed:true (n 1) (a 0) got
     | "ucbrt_rem" -> judge_root_rem (zi 3) (a 0) got
-    | "pcbrt_rem" -> judge_root_rem (zi 3) (a 1) got
+    | "pcbrt_rem" ->
+        let fid = " " ^ same (res_text (fun (r, e) -> hx r ^ " " ^ hx e) (prim_cbrt_rem_asis fuel_root (zi (ty_bits (s 0))) (a 1))) got in
+        add_extra fid (judge_root_rem (zi 3) (a 1) got)
     | "uilog" | "iilog" -> judge_ilog (a 0) (a 1) got
     | "ulog2b" | "ilog2b" -> judge_log2_value ~cls:(Printf.sprintf "int-w%d" (min 9 ((bits (a 0) + 63) / 64))) (a 0) Zar.one got
     | "plog2b" -> judge_log2_value ~cls:(s 0) ~nostd_model:true (a 1) Zar.one got
